@@ -10,6 +10,7 @@ func init() {
 			"Not decided: the behaviour of os.ReadDir/os.ReadFile/sort.Strings themselves; journal equality (C14/C15).",
 		Rules: []Rule{
 			{Name: "DIR", Doc: "directory source: list all, sort, consume one per iteration from the front, skip on error", MinInstances: 4, Run: runDirSource},
+			{Name: "UNMARSHAL", Doc: "strict decoding: what does not parse is an error (and is then skipped)", MinInstances: 2, Run: runUnmarshalDiscipline},
 		},
 	})
 }
